@@ -5,10 +5,11 @@ import json
 NOT_APPLICABLE_FAULTS = {
     "message_loss_duplication_reordering_delay": "a5-rs has no network or message passing",
     "partition_and_heal": "single process, no peers",
-    "crash_restart_with_durable_state": "a5-rs writes no durable state; the only restart it has is a caller thread ending and a new one starting with a cold memo, which is injected as thread_exit / thread_spawn_cold / restart_after_exit",
+    "crash_restart_with_durable_state": "a5-rs writes no durable state today; the restart it has is a caller thread ending and a new one starting with a cold memo (thread_exit / thread_spawn_cold / restart_after_exit). Process restart with only durable state surviving IS simulated (Engine W chains: four successive fresh processes sharing one private temp / home / working directory, with seeded damage to whatever the previous one left there), and reports files_written = 0 on this tree.",
     "clock_skew": "single process, one clock: there is no second node whose clock could disagree. (Clock JUMPS are injected, see faults_fired: a5-rs reads no clock today, but a change that introduces one is exercised through an LD_PRELOAD seam.)",
     "disk_errors_and_full_disk": "no file or stream I/O under src/, so on the unchanged tree no write exists that could fail. The fault kinds are nevertheless armed (file-system seam in the LD_PRELOAD shim + a private temp / home directory per process): torn / lost / zero-tailed / bit-flipped files between the processes of an Engine-W chain and before steps of an Engine-H scenario, short writes / ENOSPC / EIO / failed fsync / failed rename on files the library opens under that directory; their fired counters are reported and are 0 here because nothing is ever written.",
-    "failing_allocations_and_syscalls": "Rust aborts on allocation failure (no recoverable path to check); no system calls besides thread-local and once-cell primitives of std",
+    "failing_allocations": "Rust aborts on allocation failure (no recoverable path to check); the pristine-process references run under an address-space limit so that arguments which make the unchanged tree allocate without bound are screened out rather than executed in-process",
+    "failing_system_calls": "the library makes none today besides what std's thread-local and once-cell primitives need; write / fsync / fdatasync / rename failures are armed on files the library opens under its private directory (see faults_fired), pthread_create and the clock are behind seams",
 }
 
 SITE_NAMES = ["tl_get", "fwd_entry", "fwd_mid", "fwd_pre_poly", "inv_entry", "inv_mid", "inv_pre_poly", "face_tri_miss",
